@@ -44,6 +44,14 @@ Example C14_example :
   table [RBytes (Some [])] = None /\ table [RStr [104]%N; RErr (Some [101]%N)] = Some (500%Z, [101]%N).
 Proof. repeat split. Qed.
 
+(* a returned value reaches the client through the writer a middleware re-mapped: the marker of the wrapper
+   precedes the body *)
+Example C14_through_remapped_writer :
+  serve [HNormal [AWrapRW] []; HNormal [] [RStr [104; 105]%N]] None false false None
+  = Done (mkst 2 200 [CBytes [87]%N; CBytes [104; 105]%N] false
+            [Enter 0 0 false; Exit 0; Enter 1 0 false; Exit 1; Sent] None true).
+Proof. vm_compute. reflexivity. Qed.
+
 Redirect "assum/C14.1" Print Assumptions C14_table.
 Redirect "assum/C14.2" Print Assumptions C14_empty_continues.
 Redirect "assum/C14.3" Print Assumptions C14_response_is_written.
